@@ -383,6 +383,66 @@ def conformance_violations(cls, w):
     return bad
 
 
+ENUM_DEFAULT = {("Subscribe", "match"): "exact", ("Register", "match"): "exact", ("Register", "invoke"): "single"}
+
+
+def expected_roles(cls, d):
+    """what the roles attribute of an accepted HELLO / WELCOME must be, role by role, in announced order: the known
+    feature flags that role carries itself (unknown names and None are dropped) -- nothing of any other role"""
+    table = HELLO_ROLES if cls == "Hello" else WELCOME_ROLES
+    out = {}
+    for role, rv in d["roles"].items():
+        feats = rv.get("features", {}) if type(rv) is dict else {}
+        out[role] = {f: feats[f] for f in table.get(role, []) if type(feats) is dict and f in feats and feats[f] is not None}
+    return out
+
+
+def reflect_violations(cls, w, attrs):
+    """Independent oracle on an ACCEPTED wire list: every public attribute of the object is the corresponding element
+    of the input (positional element, option value or its default, payload tail, roles entry by entry).
+    attrs: {name: value}.  Returns [(attribute, expected, got)]."""
+    sp = SPEC[cls]
+    bad = []
+    npos = len(sp["pos"])
+    d = {}
+    for i, (attr, kind) in enumerate(sp["pos"]):
+        if i + 1 >= len(w):
+            break
+        if attr == "DICT":
+            d = w[i + 1] if type(w[i + 1]) is dict else {}
+        elif attr in attrs and enc(attrs[attr]) != enc(w[i + 1]):
+            bad.append((attr, w[i + 1], attrs[attr]))
+    tail = w[npos + 1:]
+    payload_mode = bool(sp["payload"]) and len(tail) == 1 and type(tail[0]) in (bytes, str) and "payload" in attrs and attrs["payload"] is not None
+    opts = list(sp["opts"])
+    if sp["payload"]:
+        exp = {"payload": tail[0] if payload_mode else None,
+               "args": None if payload_mode or len(tail) < 1 else tail[0],
+               "kwargs": None if payload_mode or len(tail) < 2 else tail[1]}
+        for k, v in exp.items():
+            if k in attrs and enc(attrs[k]) != enc(v):
+                bad.append((k, v, attrs[k]))
+        for key, attr, kind in PAYLOAD_OPTS:
+            v = d.get(key) if payload_mode else None
+            if attr in attrs and enc(attrs[attr]) != enc(v):
+                bad.append((attr, v, attrs[attr]))
+    for key, attr, kind in opts:
+        v = d.get(key)
+        if v is None:
+            v = ENUM_DEFAULT.get((cls, key))
+        if attr in attrs and enc(attrs[attr]) != enc(v):
+            bad.append((attr, v, attrs[attr]))
+    if cls in ("Hello", "Welcome") and type(d.get("roles")) is dict and "roles" in attrs:
+        exp = expected_roles(cls, d)
+        got = attrs["roles"]
+        for r in list(exp) + [r for r in got if r not in exp]:
+            if enc(exp.get(r)) != enc(got.get(r)):
+                bad.append((f"roles.{r}", exp.get(r), got.get(r)))
+        if not bad and list(exp) != list(got):
+            bad.append(("roles", list(exp), list(got)))
+    return bad
+
+
 # ------------------------------------------------------------------ grammar instances (valid, every option present)
 ENC_OPTS = {"enc_algo": "cryptobox", "enc_key": "key1", "enc_serializer": "json"}
 EXEMPLAR = {
